@@ -49,6 +49,12 @@ type Conn struct {
 	OnWire         func(c *Conn, p *WirePkt)
 	Hostile        *HostileInj // hostile bytes were queued: the stream is no longer the broker model's
 	Stalled        bool        // the broker sends nothing more on this connection
+	// Silent: a partition without reset. Nothing beyond SilentLimit reaches
+	// the client, nothing the client writes reaches the broker, and neither
+	// side is told.
+	Silent      bool
+	SilentLimit int
+	SilentStep  int
 }
 
 // WirePkt is a complete client packet on the wire.
@@ -122,7 +128,26 @@ func (c *Conn) errBroken(op string) error {
 	return &net.OpError{Op: op, Net: "tcp", Err: syscall.EPIPE}
 }
 
-func (c *Conn) avail() int { return len(c.B2C) - c.rdCur }
+func (c *Conn) avail() int {
+	if c.Silent && c.SilentLimit < len(c.B2C) {
+		return c.SilentLimit - c.rdCur
+	}
+	return len(c.B2C) - c.rdCur
+}
+
+// CutInsidePacket reports whether the partition cut a broker packet in two: the
+// client gets to read its beginning and never its end.
+func (c *Conn) CutInsidePacket() bool {
+	if !c.Silent {
+		return false
+	}
+	for i := range c.Sent {
+		if c.Sent[i].Off < c.SilentLimit && c.SilentLimit < c.Sent[i].End {
+			return true
+		}
+	}
+	return false
+}
 
 // Alive is whether bytes can still travel in both directions.
 func (c *Conn) Alive() bool { return !c.closedLocal && c.Broken == 0 }
